@@ -45,6 +45,7 @@ def bounds(tier):
     if tier == "thorough":
         return dict(
             types=dict(Shapes=[[], [2], [3], [2, 3], [3, 2], [2, 2], [2, 2, 2], [2, 1, 3], [3, 2, 2]], SecShapes=[[], [2], [2, 3]],
+                       ModShapes=[[], [2], [3], [2, 3], [2, 2, 2]],
                        ArrStarts=list(range(1, 17)), Steps=[0, 1]),
             select=dict(EnvSizes=[1, 2, 3, 7],
                         QuerySet=[[], ["*"], ["grp", "*"], ["grp", "b"], ["grp", "sub", "*"], ["grp", "sub", "d"],
@@ -53,6 +54,7 @@ def bounds(tier):
             history=dict(MaxCalls=4, HistSelects=HIST_SELECTS), chain=dict(MaxChain=3))
     return dict(
         types=dict(Shapes=[[], [2], [3], [2, 3], [3, 2], [2, 2], [2, 2, 2], [2, 1, 3]], SecShapes=[[], [2, 3]],
+                   ModShapes=[[], [2], [2, 3]],
                    ArrStarts=[1, 4], Steps=[1]),
         select=dict(EnvSizes=[2, 7],
                     QuerySet=[[], ["grp", "*"], ["grp", "b"], ["grp", "sub", "*"], ["zz", "*"]],
@@ -69,13 +71,14 @@ def tla_seq(xs):
 
 
 def run_family(wd, family, b, backends, workers):
-    d = dict(Shapes=[[]], SecShapes=[[]], ArrStarts=[1], Steps=[1], EnvSizes=[1], QuerySet=[[]], TagSelSet=[[]],
+    d = dict(Shapes=[[]], SecShapes=[[]], ModShapes=[[]], ArrStarts=[1], Steps=[1], EnvSizes=[1], QuerySet=[[]], TagSelSet=[[]],
              MaxCalls=1, HistSelects=[([], [])], MaxChain=1)
     d.update(b[family])
     mod = "ExportMC_" + family
     mc = [f"---- MODULE {mod} ----", "EXTENDS Export",
           "MCShapes == " + tla_set(d["Shapes"], tla_seq),
           "MCSecShapes == " + tla_set(d["SecShapes"], tla_seq),
+          "MCModShapes == " + tla_set(d["ModShapes"], tla_seq),
           "MCArrStarts == " + tla_set(d["ArrStarts"], str),
           "MCSteps == " + tla_set(d["Steps"], str),
           "MCEnvSizes == " + tla_set(d["EnvSizes"], str),
@@ -92,6 +95,7 @@ def run_family(wd, family, b, backends, workers):
   Family = "{family}"
   Shapes <- MCShapes
   SecShapes <- MCSecShapes
+  ModShapes <- MCModShapes
   ArrStarts <- MCArrStarts
   Steps <- MCSteps
   EnvSizes <- MCEnvSizes
@@ -154,20 +158,21 @@ def lit(ty, txt):
     return '"' + txt + '"' if ty == "str" else txt
 
 
-def render_value(p):
+def render_value(p, elems=None):
     ty, shape = p["ty"], p["shape"]
+    elems = p["elems"] if elems is None else elems
     if not shape:
-        return lit(ty, p["elems"][0])
+        return lit(ty, elems[0])
 
     def js(x):
         return "[" + ",".join(js(i) for i in x) + "]" if isinstance(x, list) else lit(ty, x)
-    s = js(nest(p["elems"], shape))
+    s = js(nest(elems, shape))
     return "'" + s + "'" if " " in s else s
 
 
 def render_dip(envrec, layout):
     """Abstract environment -> DIP text.  layout: flat (dotted names) | nested (indented groups)."""
-    lines, stack = [], []
+    lines, stack, later = [], [], []
     for p in envrec:
         segs = p["path"].split(".")
         if layout == "flat":
@@ -183,15 +188,22 @@ def render_dip(envrec, layout):
                 stack.append(g)
             ind, name = len(stack), segs[-1]
         dim = "[" + ",".join(str(s) for s in p["shape"]) + "]" if p["shape"] else ""
-        line = "  " * ind + f"{name} {p['kw']}{dim} = {render_value(p)}"
+        how = p.get("def", "once")
+        line = "  " * ind + f"{name} {p['kw']}{dim}"
+        if how == "once":
+            line += f" = {render_value(p)}"
+        elif how == "modified":
+            line += f" = {render_value(p, p['init'])}"
         if p["unit"]:
             line += " " + p["unit"]
         lines.append(line)
+        if how != "once":                                   # the final value is assigned after all definitions
+            later.append(f"{p['path']} = {render_value(p)}" + (" " + p["unit"] if p["unit"] else ""))
         if p["tags"]:
             lines.append("  " * (ind + 1) + "!tags [" + ",".join('"' + t + '"' for t in sorted(p["tags"])) + "]")
         if p["const"]:
             lines.append("  " * (ind + 1) + "!constant")
-    return "\n".join(lines) + "\n"
+    return "\n".join(lines + later) + "\n"
 
 
 def py_value(ty, txt):
@@ -204,8 +216,9 @@ def py_value(ty, txt):
     return txt
 
 
-def same_env(env, envrec):
-    """Is the parsed environment the abstract environment of the scenario?  (precondition, not a verdict)"""
+def same_env(env, envrec, types=True):
+    """Is the parsed environment the abstract environment of the scenario?  (precondition, not a verdict)
+    types=False: names, values, units, tags only - the declared width and sign of the nodes are what the exports are judged on."""
     from scinumtools.dip.datatypes import IntegerType, FloatType, BooleanType, StringType
     nodes = list(env.nodes)
     if [n.name for n in nodes] != [p["path"] for p in envrec]:
@@ -219,10 +232,12 @@ def same_env(env, envrec):
         if got != want or json.dumps(got) != json.dumps(want):
             return f"{p['path']}: value {got!r}"
         m = re.fullmatch(r"(u?)(int|float|bool|str)(\d*)", p["kw"])
-        if p["ty"] == "int":
+        if not types:
+            pass
+        elif p["ty"] == "int":
             if n.value.unsigned != (m.group(1) == "u") or n.value.precision != int(m.group(3) or 32):
                 return f"{p['path']}: int attributes"
-        if p["ty"] == "float" and n.value.precision != int(m.group(3) or 64):
+        if types and p["ty"] == "float" and n.value.precision != int(m.group(3) or 64):
             return f"{p['path']}: float precision"
         if (n.value.unit or "") != p["unit"]:
             return f"{p['path']}: unit {n.value.unit!r}"
@@ -621,33 +636,34 @@ def phase_a(rec):
         with DIP() as d:
             d.add_string(text)
             env = d.parse()
-        why = same_env(env, rec["env"])
+        why = same_env(env, rec["env"], types=False)
     except Exception as ex:
         why = f"DIP.parse raised {type(ex).__name__}: {str(ex)[:120]}"
     if why:
         return {"status": "notbuilt", "why": why, "dip": text}
     be = rec["be"]
+    before = same_env(env, rec["env"])        # a node whose width/sign differs from its declaration is exported and judged
     chain_before(rec, env)
     try:
         out = do_export(rec, env)
     except Exception as ex:
         obs = {"syms": {}, "keys": None, "visible": [], "error": ("raises", f"{type(ex).__name__}: {str(ex)[:200]}")}
-        return {"status": "judged", "dip": text, "export": None, "items": judge(rec, obs) + env_item(rec, env)}
-    extra = env_item(rec, env)
+        return {"status": "judged", "dip": text, "export": None, "items": judge(rec, obs) + env_item(rec, env, before)}
+    extra = env_item(rec, env, before)
     if be in COMPILED:
-        return {"status": "pending", "dip": text, "export": out, "extra": extra}
+        return {"status": "pending", "dip": text, "export": out, "extra": extra, "typewhy": before}
     try:
         obs = observe_dip(out) if be == "dip" else observe_data(be, out)
     except Exception as ex:
         obs = {"syms": {}, "keys": None, "visible": [], "error": ("compile", f"reader rejected the export: {type(ex).__name__}: {str(ex)[:200]}")}
-    return {"status": "judged", "dip": text, "export": out, "items": judge(rec, obs) + extra}
+    return {"status": "judged", "dip": text, "export": out, "items": judge(rec, obs) + extra, "typewhy": before}
 
 
-def env_item(rec, env):
+def env_item(rec, env, before=None):
     """An export reads the environment: afterwards it must still be the environment of the scenario."""
     why = same_env(env, rec["env"])
     tags = sorted(set(rec["feat"]) | {"environment"})
-    if why:
+    if why and why != before:
         return [("fail", tags, "environment", "the parsed environment, unchanged", why,
                  f"{rec['be']}: the environment is not modified by exporting it")]
     return [("ok", tags, None, None, None, None)]
@@ -1064,7 +1080,7 @@ def run(replay=None):
             ncomp += n
     t_b = time.time() - t0
     # ---- 4. verdicts
-    nontrivial, classes, notbuilt, evals, shadowed = set(), {}, {}, 0, 0
+    nontrivial, classes, notbuilt, evals, shadowed, retyped = set(), {}, {}, 0, 0, 0
     dump = [] if os.environ.get("C19_DUMP") else None          # development aid: every failing comparison, to a file
     per_be = {}
     for rec, a in zip(recs, res):
@@ -1078,6 +1094,8 @@ def run(replay=None):
             V.unspecified()
             continue
         items = a.get("items")
+        if a.get("typewhy"):
+            retyped += 1
         if a["status"] == "pending":
             items = judge(rec, obs_by_rid[rec["_rid"]]) + a.get("extra", [])
         scen = {k: rec[k] for k in ("family", "be", "class", "env", "query", "tags", "opt", "expect", "unselected", "feat", "_rid", "_seed", "_hist", "_chain") if k in rec}
@@ -1124,6 +1142,7 @@ def run(replay=None):
                 "(back-end, parameter, selection, options) with an array, a selection, rename off or a macro",
         "samples": samples, "exhaustive": True, "bounds": b, "backends": backends,
         "classes": classes, "not_constructed_by_DIP": notbuilt, "shadowed_by_compile_error": shadowed,
+        "scenarios_where_the_parsed_node_lost_its_declared_width_or_sign": retyped,
         "per_backend": per_be, "compilations": ncomp,
         "timing_s": {"tlc": round(t_tlc, 1), "export_and_load": round(t_a, 1), "reader_programs": round(t_b, 1)},
         "lemmas": "LemmaEnv, LemmaNames, LemmaShapes, LemmaSelection on every scenario; LemmaHistory on every history; LemmaChain on every chain; LemmaTypes as ASSUME",
